@@ -52,9 +52,11 @@ def term(b, o=()):
     return {"b": b, "o": list(o)}
 
 
-offs = st.lists(st.sampled_from(["+1", "-1", "+2", "-2", "+", "-", "+5", "-9"]), max_size=2)
+offs = st.lists(st.sampled_from(["+1", "-1", "+2", "-2", "+", "-", "+5", "-9", "+1", "-1", "+4294967296", "-4294967297"]), max_size=2)
 base = st.one_of(
     st.integers(0, 14).map(lambda k: ["n", k]), st.sampled_from([0, 1, 2, 3]).map(lambda k: ["n", k]), st.just(["."]), st.just(["$"]),
+    # numbers beyond every buffer, beyond 2^31 and 2^32: out of range, never wrapped around
+    st.sampled_from([65536, 2147483648, 4294967297, 4294967298, 99999999999]).map(lambda k: ["n", k]),
     st.sampled_from("abq").map(lambda c: ["m", c]), st.sampled_from("ab").map(lambda c: ["m", c]), st.sampled_from("ab").map(lambda c: ["m", c]),
     st.sampled_from(WORDS + ["l1", "l3", "zzz"]).map(lambda w: ["/", ["lit", w]]), st.sampled_from(WORDS + ["l2", "zzz"]).map(lambda w: ["?", ["lit", w]]),
     st.just([""]),
